@@ -4,9 +4,14 @@ import (
 	"container/list"
 	"encoding/json"
 	"fmt"
+	"os"
+	"path/filepath"
 	"reflect"
 	"sort"
+	"sync"
 	"unsafe"
+
+	updogv1 "github.com/akrennmair/updog/proto/updog/v1"
 
 	"github.com/RoaringBitmap/roaring"
 	"github.com/akrennmair/updog"
@@ -352,13 +357,79 @@ func cloneMap(m map[uint64]int) map[uint64]int {
 	return n
 }
 
+// c04Cold: every execution opens a fresh copy of the index (nothing is warmed up by an earlier execution), two or three
+// threads run grouped queries over the same columns at once.
+func c04Cold(ctx *rt.Ctx, p c04Params, outcome *string) vsched.Scenario {
+	rows := truthRows()
+	master, _, err := ix.Build(ctx.Scratch, rows, ix.MemFile)
+	if err != nil {
+		rt.Harnessf("build: %v", err)
+	}
+	mb, _ := os.ReadFile(master)
+	os.Remove(master)
+	data := model.FromRows(rows)
+	a, c := model.Eq("a", "1"), model.Eq("c", "1")
+	qs := []c03Query{{Expr: a, GroupBy: []string{"b"}}, {Expr: model.Not(c), GroupBy: []string{"b", "a"}}, {Expr: model.Or(a, c), GroupBy: []string{"b"}}}
+	n := 2
+	if p.Scenario == "S5b" {
+		n = 3
+	}
+	want := make([]string, n)
+	for t := 0; t < n; t++ {
+		sel, _ := data.Eval(qs[t].Expr)
+		g, _ := data.GroupBy(sel, qs[t].GroupBy)
+		want[t] = fmt.Sprintf("count=%d groups=%s nil=%v", sel.Count(), groupsString(g), g == nil)
+	}
+	seq := 0
+	return func() ([]func(), func(*vsched.Result) string) {
+		seq++
+		path := filepath.Join(ctx.Scratch, fmt.Sprintf("cold-%d.updog", seq))
+		os.WriteFile(path, mb, 0o644)
+		var cache updog.Cache
+		if p.Cache == "ample" {
+			cache = updog.NewLRUCache(1 << 30)
+		}
+		idx, err := ix.Open(path, p.Preload, cache)
+		if err != nil {
+			rt.Harnessf("open: %v", err)
+		}
+		got := make([]string, n)
+		var bodies []func()
+		for t := 0; t < n; t++ {
+			t := t
+			bodies = append(bodies, func() {
+				res, err := idx.Execute(&updog.Query{Expr: qs[t].Expr.Updog(), GroupBy: append([]string{}, qs[t].GroupBy...)})
+				got[t] = renderResult(res, err)
+			})
+		}
+		check := func(r *vsched.Result) string {
+			idx.Close()
+			os.Remove(path)
+			for t := range got {
+				if got[t] != want[t] {
+					return fmt.Sprintf("thread %d returned %s, alone it returns %s", t, got[t], want[t])
+				}
+			}
+			*outcome = "ok"
+			return ""
+		}
+		return bodies, check
+	}
+}
+
 func c04Worker(ctx *rt.Ctx, job *rt.Job) []*rt.Violation {
+	if job.Name == "race-server" {
+		return c04RaceServer(ctx)
+	}
 	var j e3Job
 	job.Decode(&j)
 	var p c04Params
 	json.Unmarshal(j.Params, &p)
 	var outcome string
 	var sc vsched.Scenario
+	if p.Scenario == "S5" || p.Scenario == "S5b" {
+		return e3Explore(ctx, "C04", j, c04Cold(ctx, p, &outcome), func() string { return string(j.Params) + outcome })
+	}
 	if p.Scenario == "S4" || p.Scenario == "S4b" {
 		sc = c04S4(p, &outcome)
 	} else {
@@ -369,6 +440,86 @@ func c04Worker(ctx *rt.Ctx, job *rt.Job) []*rt.Violation {
 	return e3Explore(ctx, "C04", j, sc, func() string { return string(j.Params) + outcome })
 }
 
+// c04RaceServer: supplementary, free-running pass for the gRPC clause: the real server built with -race answers batches
+// (several failing members, grouped members, long batches) and truly concurrent clients on a cold index; any report of
+// the race detector in the server, a dead server or a wrong answer is a violation. Races inside one request are found
+// by the happens-before detector whatever the timing; races between requests depend on the requests overlapping, which
+// the enumeration below provokes but does not control (this part is not exhaustive and says so in the evidence).
+func c04RaceServer(ctx *rt.Ctx) []*rt.Violation {
+	bin := os.Getenv("VCHECK_UPDOG_RACE_BIN")
+	if bin == "" {
+		rt.Harnessf("VCHECK_UPDOG_RACE_BIN not set")
+	}
+	rows := c13Files()[2]
+	path, _, err := ix.Build(ctx.Scratch, rows, ix.MemFile)
+	if err != nil {
+		rt.Harnessf("build: %v", err)
+	}
+	defer os.Remove(path)
+	qs := c13Queries(2)
+	mk := func(ids ...int) *updogv1.QueryRequest {
+		r := &updogv1.QueryRequest{}
+		for _, i := range ids {
+			r.Queries = append(r.Queries, &updogv1.Query{Expr: toProto(qs[i].Expr), GroupBy: qs[i].GroupBy})
+		}
+		return r
+	}
+	batches := [][]int{{1}, {7, 7}, {0, 7, 7, 7}, {7, 1, 7, 2, 7}, {1, 2, 5, 6}, {6, 2, 1, 5, 0, 4, 1, 2}, {7, 7, 7, 7, 7, 7}}
+	for round := 0; round < 3; round++ {
+		logp := filepath.Join(ctx.Scratch, fmt.Sprintf("srvrace-%d", round))
+		srv := startServerBin(bin, []string{"GORACE=log_path=" + logp + " halt_on_error=0 exitcode=0"}, path, true, round == 1)
+		raced := func() string {
+			m, _ := filepath.Glob(logp + ".*")
+			for _, f := range m {
+				if b, err := os.ReadFile(f); err == nil && len(b) > 0 {
+					return trunc(string(b))
+				}
+			}
+			return ""
+		}
+		// (a) concurrent clients on the cold index: grouped queries over the same columns at the same moment
+		var wg sync.WaitGroup
+		errs := make([]string, 4)
+		for g := 0; g < 4; g++ {
+			wg.Add(1)
+			go func(g int) {
+				defer wg.Done()
+				for i := 0; i < 3; i++ {
+					if _, err := srv.query(mk(1+g%2, 2, 5)); err != nil {
+						errs[g] = err.Error()
+					}
+				}
+			}(g)
+		}
+		wg.Wait()
+		ctx.Cov.Add("race_server_requests", 12)
+		// (b) batches, sequentially
+		for _, b := range batches {
+			srv.query(mk(b...))
+			ctx.Cov.Add("race_server_requests", 1)
+		}
+		alive := srv.alive()
+		report := raced()
+		srv.stop()
+		if report == "" {
+			report = raced()
+		}
+		for _, e := range errs {
+			if e != "" && alive {
+				return []*rt.Violation{rt.NewViolation("C04", "race-server", fmt.Sprintf("race-server round=%d concurrent grouped requests failed", round), map[string]int{"round": round}, "a well-formed concurrent request failed: %s", e)}
+			}
+		}
+		if !alive {
+			return []*rt.Violation{rt.NewViolation("C04", "race-server", fmt.Sprintf("race-server round=%d server died", round), map[string]int{"round": round}, "the -race server died under concurrent requests / batches: %s", trunc(srv.stderr.String()))}
+		}
+		if report != "" {
+			return []*rt.Violation{rt.NewViolation("C04", "race-server", fmt.Sprintf("race-server round=%d data race", round), map[string]int{"round": round}, "the race detector of the server process reported: %s", report)}
+		}
+	}
+	ctx.Cov.Note("race_server", "supplementary free-running pass (not exhaustive): real `updog server` built with -race, 3 cold starts x (4 concurrent clients x 3 grouped batches + 7 batches incl. several failing members)")
+	return nil
+}
+
 func c04Run(ctx *rt.Ctx) []*rt.Violation {
 	var jobs []rt.Job
 	add := func(p c04Params, bound int) {
@@ -376,9 +527,16 @@ func c04Run(ctx *rt.Ctx) []*rt.Violation {
 		b, _ := json.Marshal(e3Job{Scenario: p.Scenario, Params: pb, Bound: bound})
 		jobs = append(jobs, rt.Job{Name: fmt.Sprintf("%s-%v-%s-b%d", p.Scenario, p.Preload, p.Cache, bound), NShards: 1, Args: b})
 	}
-	bounds := map[string]int{"S1": 3, "S2": 2, "S3": 2, "S4": 3, "S4b": 2}
+	bounds := map[string]int{"S1": 3, "S2": 2, "S3": 2, "S4": 3, "S4b": 2, "S5": 2, "S5b": 1}
 	if ctx.Thorough() {
-		bounds = map[string]int{"S1": 5, "S2": 4, "S3": 3, "S4": 5, "S4b": 3}
+		bounds = map[string]int{"S1": 4, "S2": 3, "S3": 3, "S4": 5, "S4b": 3, "S5": 3, "S5b": 2}
+	}
+	for _, s := range []string{"S5", "S5b"} {
+		for _, pre := range []bool{false, true} {
+			for _, c := range []string{"ample", "none"} {
+				add(c04Params{Scenario: s, Preload: pre, Cache: c}, bounds[s])
+			}
+		}
 	}
 	for _, s := range []string{"S2", "S3", "S1"} {
 		for _, pre := range []bool{false, true} {
@@ -392,8 +550,11 @@ func c04Run(ctx *rt.Ctx) []*rt.Violation {
 			add(c04Params{Scenario: s, Cache: c}, bounds[s])
 		}
 	}
+	done := make(chan []rt.JobOutcome)
+	go func() { done <- rt.RunJobs(ctx, []rt.Job{{Name: "race-server", NShards: 1}}, rt.SpawnOpt{}) }()
 	outs := rt.RunJobs(ctx, jobs, rt.SpawnOpt{Race: true})
 	vs := rt.Collect(ctx, outs, nil)
+	vs = append(vs, rt.Collect(ctx, <-done, nil)...)
 	ctx.Cov.Note("preemption_bounds", bounds)
 	ctx.Cov.Note("rule", "per scenario and configuration: depth-first enumeration of all schedules of the real goroutines with at most the given number of preemptions, scheduling points at every sync/atomic operation of updog; per schedule: race detector silent, no panic, no deadlock, every result equals the call run alone, LRU structure consistent; S4/S4b: call/return history of direct LRUCache use is linearizable against a (lossy for the tiny cache) map")
 	ctx.Cov.Add("distinct_outcomes", int64(ctx.Cov.SetLen("outcomes")))
@@ -404,7 +565,15 @@ func c04Run(ctx *rt.Ctx) []*rt.Violation {
 	return vs
 }
 
-func c04Replay(ctx *rt.Ctx, v *rt.Violation) *rt.Violation { return e3Replay(ctx, "C04", v) }
+func c04Replay(ctx *rt.Ctx, v *rt.Violation) *rt.Violation {
+	if v.Kind == "race-server" {
+		if vs := c04RaceServer(ctx); len(vs) > 0 {
+			return vs[0]
+		}
+		return nil
+	}
+	return e3Replay(ctx, "C04", v)
+}
 
 func init() {
 	register(&Property{ID: "C04", Level: "model_checking", Run: c04Run, Worker: c04Worker, Replay: c04Replay})
